@@ -327,7 +327,6 @@ class BGP(protocol.Protocol):
         try:
             msg_update = Update().construct(msg, self.fourbytesas, self.add_path_ipv4_send)
             reactor.callFromThread(self.write_tcp_thread, msg_update)
-            self.msg_sent_stat['Updates'] += 1
 
             return True
         except Exception as e:
@@ -355,7 +354,6 @@ class BGP(protocol.Protocol):
         """
         try:
             reactor.callFromThread(self.write_tcp_thread, msg)
-            self.msg_sent_stat['Updates'] += 1
             return True
         except Exception as e:
             LOG.error(e)
@@ -363,6 +361,9 @@ class BGP(protocol.Protocol):
 
     def write_tcp_thread(self, msg):
         self.transport.write(msg)
+        if self.transport.connected:
+            # counted when it really goes out: the connection may be gone since the message was queued
+            self.msg_sent_stat['Updates'] += 1
 
     def send_notification(self, error, sub_error, data=b''):
         """
